@@ -192,6 +192,11 @@ def schedStep (m : Sched) (tok : String) : Sched × String :=
     match s1.chan with
     | x :: _ => ({ m with s := stepD (stepD s1 .recvWait) .recvTake }, s!"ok {x}")
     | [] => ({ m with s := s1 }, "timeout")
+  | ["T"] =>
+    if inpass then (m, "skip") else
+    match m.s.chan with
+    | x :: _ => ({ m with s := stepD (stepD (stepD m.s .notify) .recvWait) .recvTake }, s!"ok {x}")
+    | [] => (m, "skip")
   | ["r"] =>
     match m.s.chan with
     | x :: _ => ({ m with s := stepD m.s .tryRecv }, s!"ok {x}")
